@@ -25,6 +25,7 @@ decreasing_by
   exact Nat.div_lt_self this (by omega)
 
 def fmtDec (u : UInt64) : Bytes := natDigits 10 (by decide) u.toNat
+def hexDigits (u : UInt64) : Bytes := natDigits 16 (by decide) u.toNat               -- "%x"
 def fmtHex (u : UInt64) : Bytes := [48, 120] ++ natDigits 16 (by decide) u.toNat   -- "0x%x"
 
 def nl : UInt8 := 10
